@@ -53,4 +53,15 @@ def concatRagged (a : Align) : List Circuit → Circuit
   | [] => []
   | c :: rest => rest.foldl (concat2 a) c
 
+/-- `Circuit.zip(*circuits, align=a)`: moment `k` of the result holds moment `k` of every circuit, the shorter circuits padded with
+empty moments at the end (`LEFT`) or at the start (`RIGHT`, `FIRST`); ValueError when two operations of one moment share a qubit -/
+def padTo (a : Align) (n : Nat) (c : Circuit) : Circuit :=
+  match a with
+  | .left => c ++ List.replicate (n - c.length) []
+  | _ => List.replicate (n - c.length) [] ++ c
+
+def zipCircuits (a : Align) (cs : List Circuit) : Except Err Circuit :=
+  let n := (cs.map List.length).foldl max 0
+  (List.range n).mapM (fun k => mkMoment ((cs.map (padTo a n)).flatMap (fun c => c[k]?.getD [])))
+
 end CirqVerif.C05
